@@ -403,7 +403,7 @@ func runPart2(c *kit.Case) {
 			continue
 		}
 		seen[cls+v.User] = true
-		c.Violation(cls, fmt.Sprintf("part 2 user %s: %s", v.User, msg), map[string]any{"plan": s.byUser[v.User], "symptom": v.Class})
+		report(c, cls, fmt.Sprintf("part 2 user %s: %s", v.User, msg), map[string]any{"plan": s.byUser[v.User], "symptom": v.Class})
 	}
 	if len(sigs) > 0 {
 		sort.Strings(sigs)
@@ -424,7 +424,7 @@ const connectCmdID = 41
 
 func (s *p2) runConn(url string, p *wsPlan) *connResult {
 	res := &connResult{}
-	d := &websocket.Dialer{HandshakeTimeout: 15 * time.Second}
+	d := &websocket.Dialer{HandshakeTimeout: 45 * time.Second}
 	if p.Proto == "protobuf" {
 		d.Subprotocols = []string{"centrifuge-protobuf"}
 	}
@@ -524,7 +524,7 @@ func (s *p2) runConn(url string, p *wsPlan) *connResult {
 		default:
 		}
 		return nFrames() > 0 && p.client.Load() != nil
-	}, 15*time.Second)
+	}, 45*time.Second)
 	raceWG.Wait()
 
 	nextID := uint32(100)
@@ -615,7 +615,7 @@ func (s *p2) runConn(url string, p *wsPlan) *connResult {
 	}
 	select {
 	case <-readDone:
-	case <-time.After(20 * time.Second):
+	case <-time.After(45 * time.Second):
 		res.inconclusive = "connection did not end within the bound"
 		return res
 	}
@@ -625,14 +625,14 @@ func (s *p2) runConn(url string, p *wsPlan) *connResult {
 
 // awaitServerSideEnd waits (bounded) until the server side of the connection is known to be over.
 func (s *p2) awaitServerSideEnd(p *wsPlan, res *connResult) {
-	gone := waitUntil(func() bool { return len(s.node.Hub().UserConnections(p.User)) == 0 }, 20*time.Second)
+	gone := waitUntil(func() bool { return len(s.node.Hub().UserConnections(p.User)) == 0 }, 45*time.Second)
 	if !gone {
 		res.inconclusive = "client still registered in the hub after the bound"
 		return
 	}
 	if p.client.Load() != nil {
 		// OnConnect ran, so OnDisconnect will: it is the deterministic point after CloseDictionaryCompression
-		if !waitUntil(func() bool { return p.onDisconnect.Load() > 0 }, 20*time.Second) {
+		if !waitUntil(func() bool { return p.onDisconnect.Load() > 0 }, 45*time.Second) {
 			res.inconclusive = "OnDisconnect did not fire within the bound"
 		}
 	}
@@ -750,7 +750,7 @@ func (s *p2) judge(p *wsPlan, res *connResult) string {
 		if negotiated {
 			msg += "; dictionary compression was negotiated, so the racing push went out raw and armed the encoder, and the connect reply carrying the dictionary went through Encode"
 		}
-		c.Violation(cls, msg, detail(map[string]any{"message_kinds": head(allKinds, 10)}))
+		report(c, cls, msg, detail(map[string]any{"message_kinds": head(allKinds, 10)}))
 	}
 	orderBroken := len(classes) > 0
 
@@ -759,9 +759,9 @@ func (s *p2) judge(p *wsPlan, res *connResult) string {
 		// first data frame: the untagged connect reply
 		if len(frs) > 0 && !orderBroken {
 			if frs[0].tagged {
-				c.Violation(classReplyEncoded, fmt.Sprintf("part 2 connection %d: the first frame on the wire carries an encoder tag", p.Idx), detail(nil))
+				report(c, classReplyEncoded, fmt.Sprintf("part 2 connection %d: the first frame on the wire carries an encoder tag", p.Idx), detail(nil))
 			} else if len(frs[0].kinds) == 0 || frs[0].kinds[0] != "connect_reply" {
-				c.Violation(classOther, fmt.Sprintf("part 2 connection %d: the first frame is untagged but is not the connect reply (%v, decode error %v)", p.Idx, frs[0].kinds, frs[0].err), detail(nil))
+				report(c, classOther, fmt.Sprintf("part 2 connection %d: the first frame is untagged but is not the connect reply (%v, decode error %v)", p.Idx, frs[0].kinds, frs[0].err), detail(nil))
 			} else {
 				c.Count("p2_untagged_connect_reply_first", 1)
 			}
@@ -776,22 +776,22 @@ func (s *p2) judge(p *wsPlan, res *connResult) string {
 					cls = classRWQ
 					note = " (ReplyWithoutQueue: the reply was written by the reader goroutine after Client.close had closed the encoder and before it closed the transport)"
 				}
-				c.Violation(cls, fmt.Sprintf("part 2 connection %d: frame %d (after the first frame) carries no encoder tag: %v%s", p.Idx, i, f.kinds, note), detail(map[string]any{"frame": i, "symptom": classBypass}))
+				report(c, cls, fmt.Sprintf("part 2 connection %d: frame %d (after the first frame) carries no encoder tag: %v%s", p.Idx, i, f.kinds, note), detail(map[string]any{"frame": i, "symptom": classBypass}))
 				break
 			}
 			if f.id != dc.id || f.ctr != want {
-				c.Violation(classTagOrder, fmt.Sprintf("part 2 connection %d: frame %d carries tag (encoder %d, call %d), expected (encoder %d, call %d)", p.Idx, i, f.id, f.ctr, dc.id, want), detail(map[string]any{"frame": i}))
+				report(c, classTagOrder, fmt.Sprintf("part 2 connection %d: frame %d carries tag (encoder %d, call %d), expected (encoder %d, call %d)", p.Idx, i, f.id, f.ctr, dc.id, want), detail(map[string]any{"frame": i}))
 				break
 			}
 			if f.err != nil {
-				c.Violation(classTagOrder, fmt.Sprintf("part 2 connection %d: frame %d does not decode after removing the tag: %v", p.Idx, i, f.err), detail(map[string]any{"frame": i}))
+				report(c, classTagOrder, fmt.Sprintf("part 2 connection %d: frame %d does not decode after removing the tag: %v", p.Idx, i, f.err), detail(map[string]any{"frame": i}))
 				break
 			}
 			want++
 			c.Count("p2_tagged_frames_checked", 1)
 		}
 		if want-1 > uint64(dc.calls.Load()) {
-			c.Violation(classTagOrder, fmt.Sprintf("part 2 connection %d: %d tagged frames received but only %d Encode calls were made", p.Idx, want-1, dc.calls.Load()), detail(nil))
+			report(c, classTagOrder, fmt.Sprintf("part 2 connection %d: %d tagged frames received but only %d Encode calls were made", p.Idx, want-1, dc.calls.Load()), detail(nil))
 		}
 		if dc.maxInflight.Load() > 1 {
 			c.Count("p2_concurrent_encode_calls_observed", 1)
@@ -807,16 +807,16 @@ func (s *p2) judge(p *wsPlan, res *connResult) string {
 				if dc != nil {
 					cls = classUnheldInstalled
 				}
-				c.Violation(cls, fmt.Sprintf("part 2 connection %d: frame %d carries an encoder tag although compression was not negotiated", p.Idx, i), detail(nil))
+				report(c, cls, fmt.Sprintf("part 2 connection %d: frame %d carries an encoder tag although compression was not negotiated", p.Idx, i), detail(nil))
 				break
 			}
 		}
 		if dc != nil && dc.calls.Load() > 0 {
-			c.Violation(classUnheldInstalled, fmt.Sprintf("part 2 connection %d: Encode was called %d times on an encoder that named a dictionary the client never advertised", p.Idx, dc.calls.Load()), detail(nil))
+			report(c, classUnheldInstalled, fmt.Sprintf("part 2 connection %d: Encode was called %d times on an encoder that named a dictionary the client never advertised", p.Idx, dc.calls.Load()), detail(nil))
 		}
 	}
 	if len(dcs) > 1 {
-		c.Violation(classOther, fmt.Sprintf("part 2 connection %d: NewDictionaryConnection produced %d encoders for one connection", p.Idx, len(dcs)), detail(nil))
+		report(c, classOther, fmt.Sprintf("part 2 connection %d: NewDictionaryConnection produced %d encoders for one connection", p.Idx, len(dcs)), detail(nil))
 	}
 
 	// ---- lifecycle: closed exactly once, and closed by the time the connection is over
@@ -841,7 +841,7 @@ func (s *p2) judge(p *wsPlan, res *connResult) string {
 		if v := p.closedAtOnDis.Load(); v > 0 {
 			c.Count("p2_close_checked_at_on_disconnect", 1)
 			if v-1 == 0 {
-				c.Violation(classNeverClosed, fmt.Sprintf("part 2 connection %d (%s): the encoder had not been closed when OnDisconnect ran (Client.close calls CloseDictionaryCompression before it)", p.Idx, cause), detail(nil))
+				report(c, classNeverClosed, fmt.Sprintf("part 2 connection %d (%s): the encoder had not been closed when OnDisconnect ran (Client.close calls CloseDictionaryCompression before it)", p.Idx, cause), detail(nil))
 			}
 			mustBeClosed, why = true, "OnDisconnect fired"
 		}
@@ -859,7 +859,7 @@ func (s *p2) judge(p *wsPlan, res *connResult) string {
 					cls = classRWQ
 					note = " (ReplyWithoutQueue: the connect reply is written by the reader goroutine; its promotion of the pending encoder in websocketTransport.writeData can straddle CloseDictionaryCompression)"
 				}
-				c.Violation(cls, fmt.Sprintf("part 2 connection %d (%s): DictionaryConnection.Close was never called although %s%s", p.Idx, cause, why, note), detail(map[string]any{"symptom": classNeverClosed}))
+				report(c, cls, fmt.Sprintf("part 2 connection %d (%s): DictionaryConnection.Close was never called although %s%s", p.Idx, cause, why, note), detail(map[string]any{"symptom": classNeverClosed}))
 			} else if !waitUntil(func() bool { return dc.closed.Load() > 0 }, 10*time.Second) {
 				c.Inconclusive(fmt.Sprintf("part 2 connection %d (%s): encoder not closed within the bound and no deterministic end-of-connection event was observed", p.Idx, cause))
 			}
